@@ -70,11 +70,23 @@ def simplify(atoms, box=None):
         q = g["q"]
         if g["bad"]:
             false = True
+        lenq = None
+        if len(q.m) == 1 and list(q.m.values())[0] == 1 and len(list(q.m)[0]) == 1 and list(q.m)[0][0].startswith("len(") and list(q.m)[0][0].endswith(")"):
+            lenq = list(q.m)[0][0][4:-1]
         if g["eq"] is not None:
             e = g["eq"]
             if (g["lo"] is not None and e < g["lo"]) or (g["hi"] is not None and e > g["hi"]) or e in g["ne"]:
                 false = True
-            out.append(rel_atom(q - Poly.const(e), "=="))
+            if lenq is not None and e == 0:
+                rest.append(("pred", "is_empty(%s)" % lenq, True))      # len(X) == 0
+            else:
+                out.append(rel_atom(q - Poly.const(e), "=="))
+            continue
+        if lenq is not None and g["hi"] is None and ((g["lo"] == 1 and not g["ne"]) or (g["lo"] in (None, 0) and g["ne"] == {0})):
+            rest.append(("pred", "is_empty(%s)" % lenq, False))         # len(X) >= 1 / len(X) != 0
+            continue
+        if lenq is not None and g["hi"] == 0 and g["lo"] in (None, 0) and not g["ne"]:
+            rest.append(("pred", "is_empty(%s)" % lenq, True))          # len(X) <= 0
             continue
         lo, hi = g["lo"], g["hi"]
         if box is not None:
